@@ -175,6 +175,29 @@ def guarded(w, fn, *a, **k):
     return None
 
 
+def nested_walk(w, goals=(2, 1)):
+    """two circuits of one originator carry data; then hosts outside send the exits' outside sockets datagrams that are
+    tunnel-community data messages naming every circuit id in use (OutsideNested); data flows again afterwards"""
+    cids = [build(w, "o", g) for g in goals]
+    for i, c in enumerate(cids):
+        w.send_data("o", c, i + 1)
+    while w.net.inflight:
+        w.deliver(w.net.inflight[0].seq)
+    known = sorted(set(w.cid_map.values()))
+    for n in w.names:
+        for e in w.project()["exit"][n]:
+            if not e["open"]:
+                continue
+            for target in known:
+                w.outside_nested(n, e["cid"], target)
+                while w.net.inflight:
+                    w.deliver(w.net.inflight[0].seq)
+    for i, c in enumerate(cids):
+        w.send_data("o", c, len(cids) + i + 1)      # (payloads are numbered in sending order)
+    while w.net.inflight:
+        w.deliver(w.net.inflight[0].seq)
+
+
 def subsets(items, upto):
     for k in range(0, upto + 1):
         yield from itertools.combinations(items, k)
